@@ -88,6 +88,9 @@ class Builder:
             if a[0] == name:
                 a[1] = value
                 self.flags["attr_replaced"] = self.flags.get("attr_replaced", 0) + 1
+                if name[0]:
+                    # class of known finding K17 (property C14): replacement is decided on the qualified name
+                    self.flags["ns_attr_replaced"] = self.flags.get("ns_attr_replaced", 0) + 1
                 return
         top["attrs"].append([name, value])
 
@@ -229,6 +232,7 @@ class Interp:
         self.prec = 0
         self.trace = trace       # optional list collecting ('ev', token) of the main output (see xsltgen.ev_script)
         self.depth = 0
+        self.text_only = 0
         self.vt = None           # optional: children list of the dynamic execution tree being built
         self.vroot = None
         self.marker_next = False
@@ -345,7 +349,15 @@ class Interp:
         if name in self.gbusy:
             raise XsltError("circular variable")
         self.gbusy.add(name)
-        v = self.vdef_value(self.globals[name][2], self.initial_cx, {})
+        if self.text_only > 0 and self.globals[name][2][0] == "body":
+            # class of a known deviation: a top-level variable holding a fragment, first referenced (and
+            # therefore built, lazily) inside the content of xsl:attribute / xsl:comment / xsl:processing-instruction
+            self.flags["global_rtf_built_in_text_only_context"] = 1
+        saved_to, self.text_only = self.text_only, 0
+        try:
+            v = self.vdef_value(self.globals[name][2], self.initial_cx, {})
+        finally:
+            self.text_only = saved_to
         self.gbusy.discard(name)
         self.gvalues[name] = v
         return v
@@ -511,8 +523,12 @@ class Interp:
     def body_string(self, body, cx, env, tm, mode, what):
         b = Builder(self.flags)
         self.depth += 1
-        self.block(body, body, cx, dict(env), b, tm, mode)
-        self.depth -= 1
+        self.text_only += 1
+        try:
+            self.block(body, body, cx, dict(env), b, tm, mode)
+        finally:
+            self.text_only -= 1
+            self.depth -= 1
         out = []
         for n in b.root:
             if n["k"] != "t":
